@@ -407,6 +407,7 @@ fn gen_cells(out: &mut Out, rng: &mut Rng, thorough: bool, prop: &str) {
     }
     if prop == "C01" {
         crate::unitops::gen_place(out, rng, thorough);
+        crate::unitops::gen_xref(out, rng, thorough);
     }
     if prop == "C02" {
         crate::unitops::gen_structure(out, rng, thorough);
